@@ -140,10 +140,12 @@ def run(ctx):
     ctx.cov["distinct_nontrivial"] = len({c[0] for c in cases if nontrivial(c[0])})
     ctx.sample({"ops": [c[0] for c in cases[len(cases) // 2: len(cases) // 2 + 4]]})
     feed = os.path.join(core.VERIF, "tools", "obsfeed.py")
-    for ty, shape in dsgen.types(TYPES, 'VERIF_C12_TYPES'):
+    def one(t):
+        ty, shape = t
         hcmd = [exe, ty]
         dcmd = [sys.executable, feed, RNG_OPS, exe, ty, "--", drv, *shape]
-        core.correspond(ctx, f"K-C12[{ty}]", cases, hcmd, dcmd, classify, keep_prefix=0, env=dsgen.ASAN_ENV)
+        return core.correspond(ctx, f"K-C12[{ty}]", cases, hcmd, dcmd, classify, keep_prefix=0, env=dsgen.ASAN_ENV)
+    dsgen.run_types(one, dsgen.types(TYPES, 'VERIF_C12_TYPES'))
 
 
 def classify(ops, res):
